@@ -610,14 +610,19 @@ void fp12_back_cyc_sim(fp12_t c[], const fp12_t a[], int n) {
 		return;
 	}
 
+	if (t != NULL) {
+		for (int i = 0; i < n; i++) {
+			fp2_null(t0[i]);
+			fp2_null(t1[i]);
+			fp2_null(t2[i]);
+		}
+	}
+
 	RLC_TRY {
 		if (t == NULL) {
 			RLC_THROW(ERR_NO_MEMORY);
 		}
 		for (int i = 0; i < n; i++) {
-			fp2_null(t0[i]);
-			fp2_null(t1[i]);
-			fp2_null(t2[i]);
 			fp2_new(t0[i]);
 			fp2_new(t1[i]);
 			fp2_new(t2[i]);
@@ -679,10 +684,12 @@ void fp12_back_cyc_sim(fp12_t c[], const fp12_t a[], int n) {
 	} RLC_CATCH_ANY {
 		RLC_THROW(ERR_CAUGHT);
 	} RLC_FINALLY {
-		for (int i = 0; i < n; i++) {
-			fp2_free(t0[i]);
-			fp2_free(t1[i]);
-			fp2_free(t2[i]);
+		if (t != NULL) {
+			for (int i = 0; i < n; i++) {
+				fp2_free(t0[i]);
+				fp2_free(t1[i]);
+				fp2_free(t2[i]);
+			}
 		}
 		RLC_FREE(t);
 	}
@@ -942,12 +949,17 @@ void fp12_exp_cyc_sps(fp12_t c, const fp12_t a, const int *b, size_t len,
 
 	fp12_null(t);
 
+	if (u != NULL) {
+		for (i = 0; i < w; i++) {
+			fp12_null(u[i]);
+		}
+	}
+
 	RLC_TRY {
 		if (u == NULL) {
 			RLC_THROW(ERR_NO_MEMORY);
 		}
 		for (i = 0; i < w; i++) {
-			fp12_null(u[i]);
 			fp12_new(u[i]);
 		}
 		fp12_new(t);
@@ -1001,8 +1013,10 @@ void fp12_exp_cyc_sps(fp12_t c, const fp12_t a, const int *b, size_t len,
 		RLC_THROW(ERR_CAUGHT);
 	}
 	RLC_FINALLY {
-		for (i = 0; i < w; i++) {
-			fp12_free(u[i]);
+		if (u != NULL) {
+			for (i = 0; i < w; i++) {
+				fp12_free(u[i]);
+			}
 		}
 		fp12_free(t);
 		RLC_FREE(u);
